@@ -6,6 +6,22 @@ package ref
 // 0xad93d23594c935a9, reflected input and output, initial value 0, no final xor.
 // Check value: CRC64("123456789") = 0xe9c6d914c4b8d9ca.
 func CRC64(crc uint64, data []byte) uint64 {
+	for _, b := range data {
+		crc = crc64Table[byte(crc)^b] ^ (crc >> 8)
+	}
+	return crc
+}
+
+// crc64Table is derived at start-up from the bit-by-bit definition below (it is not
+// copied from anywhere); TestCheckValues compares table-driven and bit-by-bit results.
+var crc64Table = func() (t [256]uint64) {
+	for i := range t {
+		t[i] = CRC64Bitwise(0, []byte{byte(i)})
+	}
+	return
+}()
+
+func CRC64Bitwise(crc uint64, data []byte) uint64 {
 	const polyReflected = 0x95ac9329ac4bc9b5 // bit-reversal of 0xad93d23594c935a9
 	for _, b := range data {
 		crc ^= uint64(b)
